@@ -7,6 +7,7 @@ import os
 from xml.etree import ElementTree
 
 from ..contracts import *  # noqa: F401,F403
+from ..engine_a import run_body
 from ..loader import AnalysisError, repo_root, src_of
 from ..opcases import judge_product, _dims_sum, T_of
 from ..report import Result
@@ -335,7 +336,42 @@ def run(prog, tier) -> Result:
         return None
     cr.run("R08.3", rc, "register_currency", rc_setup, judge_rc, min_paths=3)
 
+    # R08.2e what a currency reports about itself is what was registered (the accessors' own code, evaluated)
+    def acc(name):
+        def body(I, c):
+            c.new_type("M", **FLAVORS["money"])
+            u = c.unit("cu", "M")
+            fi = prog.lookup(prog.cls("Currency"), name)
+            if fi is None:
+                raise AnalysisError(f"Currency has no accessor {name}")
+            c.st.acc = u
+            return I.call_function(fi, [u], {})
+        return body
+
+    def acc_judge(name):
+        def judge(o):
+            st = o.state
+            if o.kind == "raise":
+                return (exc_sig(o), f"Currency.{name} raises")
+            v, uid = o.value, st.ufind(st.acc.uid)
+            if name in ("smallest_fraction", "quantum"):
+                ok = isinstance(v, Num) and st.norm(v.rf).equals(RF.atom(("sf", uid)))
+            elif name in ("iso_code", "symbol"):
+                ok = isinstance(v, StrV) and v.tag == f"symbol({uid})"
+            else:
+                has_name = any(t.startswith("str-nonempty@") and t.endswith("=nonempty") for t in o.trace)
+                ok = isinstance(v, StrV) and v.tag == (f"name({uid})" if has_name else f"symbol({uid})")
+            return None if ok else (f"Currency.{name} does not report what was registered", repr(v))
+        return judge
+    for name in ("smallest_fraction", "quantum", "iso_code", "symbol", "name"):
+        outs = run_body(prog, acc(name), max_depth=10)
+        res.paths += len(outs)
+        bad = [r for r in (acc_judge(name)(o) for o in outs) if r]
+        res.ob("R08.2e", f"Currency.{name}", "reports what was registered", bool(outs) and not bad,
+               "; ".join(f"{a}: {b}" for a, b in bad[:2]), sig=bad[0][0] if bad else "accessor wrong")
+
     res.require("R08.1", 18)
+    res.require("R08.2e", 5)
     res.require("R08.2", 3)
     res.require("R08.2b", 2)
     res.require("R08.3", 2)
